@@ -46,7 +46,8 @@ class FakeServerT(Component):
         self.out = []
 
     def write(self, sock, data):
-        self.out.append(bytes(data))
+        if sock == 'SOCK':      # the connection under test; other connections of the server ('conn' op) are not read
+            self.out.append(bytes(data))
 
     def close(self, *a):
         pass
@@ -672,6 +673,12 @@ class C19(Prop):
                     v = mA.fire(remote(ev, 'peer', channel=sp['chan']))
                     ticks(mA)
                 calls.append((ev, v))
+            elif op[0] == 'conn':
+                # one more peer connects to the server while calls may be in flight: the Server creates another Protocol
+                # in the same process; nothing of the connection under test may change (no-op in the model)
+                mB.fire(connect('SOCK%d' % (2 + len([x for x in nB.server.components
+                                                      if isinstance(x, nprotocol.Protocol)])), 'h', 3), nB.channel)
+                ticks(mB)
             elif op[0] == 'iab':
                 wab.extend(bytes(op[1]))
             elif op[0] == 'iba':
@@ -738,6 +745,8 @@ class C19(Prop):
                 dflt = [] if c.get('dir') == 's2c' else ['*']
                 mode = {'call': 'MCall', 'attr': 'MNoResAttr'}.get(sp.get('mode', 'call'), 'MNoResApi')
                 ops.append('OSend %s %s' % (event_term(sp, [sp['chan']] if sp['chan'] is not None else dflt), mode))
+            elif op[0] == 'conn':
+                pass
             elif op[0] == 'iab':
                 ops.append('OInjAB %s' % nl(op[1]))
             elif op[0] == 'iba':
@@ -885,7 +894,19 @@ class C19(Prop):
         return True
 
     def search(self, rng, tier):
-        return self.generate(rng, 600, 'thorough')
+        """directed search when a proof or the correspondence breaks: first histories with several connections in one
+        process (a new connection while calls are in flight, in both directions, every send mode), then the big sweep"""
+        out = []
+        for d in ('c2s', 's2c'):
+            for where in range(4):
+                evs = [dict(gen_event(rng, i), name=rng.choice(ECHO), notify=False) for i in range(3)]
+                ops = [['send', 0], ['send', 1], ['ab', 0], ['send', 2], ['ba', 0], ['ab', 0], ['ba', 0]]
+                ops.insert(where + 1, ['conn'])
+                if where == 3:
+                    ops.insert(2, ['conn'])
+                out.append({'k': 'proto', 'dir': d, 'events': evs + [dict(PROBE)], 'fws': None, 'fwr': None,
+                            'ops': ops + FLUSH + [['send', 3]] + FLUSH})
+        return out + list(self.generate(rng, 600, 'thorough'))
 
 
 def _freeze(x):
